@@ -178,7 +178,7 @@ def run(case, ctx):
     container = case["container"]
     clock = [0]
     keys = [m[0] for m in case["members"]]
-    real = {k: adapters.build(n, cfg) for k, n, cfg in case["members"]}
+    real = {k: adapters.build(n, cfg, case.get("retype")) for k, n, cfg in case["members"]}   # (the twins get the plain types)
     twins = {k: adapters.build(n, cfg) for k, n, cfg in case["members"]}
     members = {k: Seeded(real[k], k, clock) for k in keys}
     sels = {k: _selector(case["selectors"].get(k), container) for k in keys}
